@@ -160,6 +160,20 @@ def read_crumb(path):
         return None, None, False
 
 
+BLOCKED_WALL_S = 240
+
+
+def read_tail(path, n=20000):
+    try:
+        with open(path, "rb") as f:
+            f.seek(0, 2)
+            size = f.tell()
+            f.seek(max(0, size - n))
+            return f.read().decode("utf-8", "replace")
+    except OSError:
+        return ""
+
+
 def run_workers(ctx, jobs, hang_cpu_s=75):
     """jobs: list of dict(argv, crumb, label, kind, first, count). Runs up to NPROC at a time.
     Returns list of dict(job, rc, died_at)."""
@@ -169,8 +183,14 @@ def run_workers(ctx, jobs, hang_cpu_s=75):
     while pending or running:
         while pending and len(running) < NPROC:
             j = pending.pop(0)
-            p = subprocess.Popen(j["argv"], env=env(shim=True), stdout=subprocess.PIPE, stderr=subprocess.STDOUT, text=True)
-            running.append({"job": j, "p": p, "last_idx": None, "cpu_at_idx": 0.0})
+            # output goes to a file, never to a pipe: a library that starts writing to stdout/stderr must not
+            # be able to block the worker on a full pipe
+            os.makedirs(ctx.out, exist_ok=True)
+            logp = os.path.join(ctx.out, f"log-{j.get('label', 'job')}-{j.get('build', '')}{j.get('worker', len(results) + len(running))}.txt")
+            logf = open(logp, "wb")
+            p = subprocess.Popen(j["argv"], env=env(shim=True), stdout=logf, stderr=subprocess.STDOUT, stdin=subprocess.DEVNULL)
+            logf.close()
+            running.append({"job": j, "p": p, "last_idx": None, "cpu_at_idx": 0.0, "log": logp, "wall_at_idx": time.time(), "cpu_seen": 0.0, "wall_cpu": time.time()})
         time.sleep(0.05)
         for r in list(running):
             p = r["p"]
@@ -178,16 +198,22 @@ def run_workers(ctx, jobs, hang_cpu_s=75):
             if rc is None:
                 idx, _, _ = read_crumb(r["job"]["crumb"])
                 cpu = cpu_seconds(p.pid) or 0.0
+                now = time.time()
+                if cpu > r["cpu_seen"] + 0.05:
+                    r["cpu_seen"] = cpu
+                    r["wall_cpu"] = now
                 if idx != r["last_idx"]:
                     r["last_idx"] = idx
                     r["cpu_at_idx"] = cpu
-                elif cpu - r["cpu_at_idx"] > hang_cpu_s:
+                    r["wall_at_idx"] = now
+                elif cpu - r["cpu_at_idx"] > hang_cpu_s or (now - r["wall_at_idx"] > BLOCKED_WALL_S and now - r["wall_cpu"] > BLOCKED_WALL_S):
+                    # spinning (CPU time without progress) or blocked (neither progress nor CPU time for minutes)
                     p.kill()
                     p.wait()
                     running.remove(r)
-                    results.append({"job": r["job"], "rc": -9, "hang": True, "died_at": idx, "output": ""})
+                    results.append({"job": r["job"], "rc": -9, "hang": True, "died_at": idx, "output": read_tail(r["log"])})
                 continue
-            out = p.stdout.read() if p.stdout else ""
+            out = read_tail(r["log"])
             running.remove(r)
             idx, cap, done = read_crumb(r["job"]["crumb"])
             results.append({"job": r["job"], "rc": rc, "hang": False, "died_at": None if (rc == 0 and done) else idx, "cap": cap, "output": out})
@@ -204,11 +230,13 @@ def plan_run_jobs(ctx, prop, total, extra_args=(), label="run", tag=""):
     return jobs
 
 
-def plan_sweep_jobs(ctx, kind, permille, generated, prop=None):
+def plan_sweep_jobs(ctx, kind, permille, generated, prop=None, tag=""):
     jobs = []
     for k in range(NPROC):
         argv = [ctx.tzsim, "sweep", kind, "--prop", prop or ctx.prop, "--out", ctx.out, "--worker", str(k), "--of", str(NPROC), "--sample-permille", str(permille), "--seed", str(ctx.seed), "--generated", str(generated), "--replays", ctx.replays]
-        jobs.append({"argv": argv, "crumb": os.path.join(ctx.out, f"crumb-{kind}-{k}"), "label": f"sweep-{kind}", "kind": "sweep", "prop": prop or ctx.prop, "sweep": kind, "worker": str(k)})
+        if tag:
+            argv += ["--tag", tag]
+        jobs.append({"argv": argv, "crumb": os.path.join(ctx.out, f"crumb-{kind}-{tag}{k}"), "label": f"sweep-{kind}", "kind": "sweep", "prop": prop or ctx.prop, "sweep": kind, "worker": f"{tag}{k}"})
     return jobs
 
 
